@@ -185,7 +185,7 @@ def build(name, verbose=False):
         if r.returncode != 0:
             sys.stderr.write("HARNESS-FAILURE: ld -r failed\n" + r.stdout)
             raise SystemExit(2)
-        link = [cc] + sflags + (["-fopenmp"] if cfg["omp"] else []) + ["-rdynamic"] + hobjs + [libw, "-o", exe, "-lm", "-lpng", "-lpthread", "-ldl"]
+        link = [cc] + sflags + (["-fopenmp"] if cfg["omp"] else []) + ["-rdynamic"] + hobjs + [libw, "-o", exe, "-lm", "-lpng", "-lz", "-lpthread", "-ldl"]
         r = run(link)
         if r.returncode != 0:
             sys.stderr.write("HARNESS-FAILURE: link failed for %s\n%s\n" % (name, r.stdout[-6000:]))
@@ -483,11 +483,20 @@ def check(pid, tier, seed):
     build_many(sorted({s["cfg"] for s in stages}))
     for si, st in enumerate(stages):
         n = st[tier][0] if isinstance(st[tier], (tuple, list)) else st[tier]
-        if n <= 0:
+        if n <= 0 and not st.get("forge"):
             continue
         margs = [st["monitor"]] + [scratch_dir() if x == "@TMP@" else x for x in st["args"]] + ["--tier", tier]
         if isinstance(st[tier], (tuple, list)) and len(st[tier]) > 1 and st[tier][1]:
             margs += ["--maxdim", str(st[tier][1])]
+        if st.get("forge"):
+            fd = os.path.join(scratch_dir(), "forge_%s_%d_%d" % (pid, seed, si))
+            nv, nj, nm = st["forge"][tier]
+            r = run([sys.executable, os.path.join(HARNESS, "forge.py"), fd, str(seed), str(nv), str(nj), str(nm)])
+            if r.returncode != 0:
+                sys.stderr.write("HARNESS-FAILURE: forge.py failed: %s\n" % r.stdout[-800:])
+                return 2
+            n = int(r.stdout.strip().splitlines()[-1])
+            margs += ["--arg", fd]
         ts = time.time()
         if st.get("runner"):
             res = st["runner"](st, tier, seed, n)
